@@ -21,7 +21,7 @@ import os
 import select
 import time
 
-from vmon.monitors.loop_probe import Boom, FakeFile, FakePoller, FakeSelectorsModule, FakeTimeModule, Probe, VirtualOS
+from vmon.monitors.loop_probe import Boom, FakeFile, FakePoller, FakeSelectorsModule, FakeTimeModule, PollerProxy, Probe, VirtualOS, WaitRecorder
 
 LOOPS = ("select", "zmq", "asyncio", "tornado", "twisted", "trio")
 VIRTUAL_LOOPS = ("select", "zmq")
@@ -29,6 +29,7 @@ RESTARTABLE = ("select", "zmq", "asyncio", "tornado", "trio")
 DELAYS = [0, 1000, 2000, 5000, 20000, 60000]
 DELAY_W = [5, 5, 4, 4, 2, 1]
 GAP_US = 50000
+TAIL_US = 60000  # quiet tail of every program: S at -30 ms, X at the end
 
 
 # ------------------------------------------------------------------------------ environments
@@ -46,15 +47,32 @@ class RealEnv:
             os.set_blocking(r, False)
         self.files = {}
         self.cleanup = []
+        self.rec = rec = WaitRecorder(None, self.readable)
         if loopname == "select":
-            from urwid.event_loop.select_loop import SelectEventLoop
+            import selectors as real_selectors
+            import types
 
-            self.loop = SelectEventLoop()
+            from urwid.event_loop import select_loop as m
+
+            class RecordingSelector(real_selectors.DefaultSelector):
+                def select(self, timeout=None):
+                    ev = rec.note(None if timeout is None else max(0.0, float(timeout)))
+                    try:
+                        return super().select(timeout)
+                    finally:
+                        rec.done(ev)
+
+            shim = types.SimpleNamespace(DefaultSelector=RecordingSelector, EVENT_READ=real_selectors.EVENT_READ, EVENT_WRITE=real_selectors.EVENT_WRITE)
+            old = m.selectors
+            m.selectors = shim
+            self.cleanup.append(lambda: setattr(m, "selectors", old))
+            self.loop = m.SelectEventLoop()
             self.clock = time.time
         elif loopname == "zmq":
             from urwid.event_loop.zmq_loop import ZMQEventLoop
 
             self.loop = ZMQEventLoop()
+            self.loop._poller = PollerProxy(self.loop._poller, rec)
             self.clock = time.time
         elif loopname == "asyncio":
             import asyncio
@@ -62,6 +80,7 @@ class RealEnv:
             from urwid.event_loop.asyncio_loop import AsyncioEventLoop
 
             al = asyncio.new_event_loop()
+            al._selector.select = rec.wrap(al._selector.select)
             self.loop = AsyncioEventLoop(loop=al)
             self.clock = al.time
             self.cleanup.append(al.close)
@@ -71,6 +90,7 @@ class RealEnv:
             from urwid.event_loop.tornado_loop import TornadoEventLoop
 
             io = ioloop.IOLoop(make_current=False)
+            io.asyncio_loop._selector.select = rec.wrap(io.asyncio_loop._selector.select)
             self.loop = TornadoEventLoop(io)
             self.clock = io.time
             self.cleanup.append(lambda: io.close(all_fds=False))
@@ -82,6 +102,7 @@ class RealEnv:
             from urwid.event_loop.twisted_loop import TwistedEventLoop
 
             r = EPollReactor()
+            r.doIteration = rec.wrap(r.doIteration, lambda t: None if t is None else (0.0 if t is False else max(0.0, float(t))))
             self.loop = TwistedEventLoop(reactor=r)
             self.clock = r.seconds
 
@@ -98,10 +119,28 @@ class RealEnv:
         elif loopname == "trio":
             from urwid.event_loop.trio_loop import TrioEventLoop
 
+            import trio
+
+            class WaitInstrument(trio.abc.Instrument):
+                def before_io_wait(self, timeout):
+                    self.ev = rec.note(float(timeout))
+
+                def after_io_wait(self, timeout):
+                    rec.done(self.ev)
+
+            real_run = trio.run
+
+            def run_with_instrument(fn, *a, instruments=(), **kw):
+                # urwid's idle instrument comes first in the list, so its before_io_wait has run when ours records
+                return real_run(fn, *a, instruments=[*instruments, WaitInstrument()], **kw)
+
+            trio.run = run_with_instrument
+            self.cleanup.append(lambda: setattr(trio, "run", real_run))
             self.loop = TrioEventLoop()
             self.clock = time.perf_counter  # trio's SystemClock = perf_counter() + constant offset
         else:
             raise ValueError(loopname)
+        rec.clock = self.clock
 
     def fdobj(self, k):
         r = self.pipes[k][0]
@@ -132,7 +171,7 @@ class RealEnv:
         time.sleep(us / 1e6)
 
     def attach(self, probe):
-        pass
+        self.rec.sink = probe.h
 
     def close(self):
         for fn in self.cleanup:
@@ -226,6 +265,8 @@ def execute(prog) -> list[dict]:
                 env.read(fd_of[cbid], 1)
             if cbid == "X" or cbid == "X2":
                 raise ExitMainLoop
+            if cbid == "S":
+                return
             lists = cbs.get(cbid, ())
             if n < len(lists):
                 run_ops(lists[n], cbid, n)
@@ -285,6 +326,9 @@ def execute(prog) -> list[dict]:
                 run_ops([op], None, 0)
             except Exception:  # noqa: BLE001  an API call raised outside the loop: recorded by the probe, judged by api-call
                 pass
+        # sentinel S: a no-op alarm half way between the last planned activity and the exit alarm, so that every
+        # program ends with two long waits (S, then X)
+        probe.alarm("S", (prog["exit_us"] - TAIL_US // 2) / 1e6, body)
         probe.alarm("X", prog["exit_us"] / 1e6, body)
         probe.run()
         if prog.get("restart") and prog["loop"] in RESTARTABLE and probe.h[-1].get("outcome") in ("return", "raise"):
@@ -328,7 +372,7 @@ def horizon_us(prog) -> int:
 
 
 def finish(prog):
-    prog["exit_us"] = horizon_us(prog) + GAP_US + 10000
+    prog["exit_us"] = horizon_us(prog) + TAIL_US
     return prog
 
 
@@ -609,7 +653,7 @@ def build_enum(loop, n_a, n_f, ranks, action, order, unit_us, idle_variant="plai
         "order": order,
         "restart": False,
     }
-    prog["exit_us"] = (max(ranks) + 4) * unit_us + GAP_US
+    prog["exit_us"] = (max(ranks) + 4) * unit_us + TAIL_US
     return prog
 
 
